@@ -53,6 +53,25 @@ pub fn plan_from_header(case: &Case, prefix: &str) -> Plan {
 }
 
 /// Iterator adaptor handed to `extend`: counts as the "extend iterator" callback class.
+/// The by-reference `Extend` impls need `Copy` elements: only the plain flavour has them.
+/// Returns false when the element types are not the plain ones or `variant` asks for by-value.
+fn extend_by_ref<K: KeyT, V: ValT>(map: &mut Map<K, V>, items: &Vec<(K, V)>, variant: u64) -> bool {
+    use crate::elem::{PKey, PVal};
+    use std::any::Any;
+    if variant < 2 {
+        return false;
+    }
+    let (Some(m), Some(it)) = ((map as &mut dyn Any).downcast_mut::<Map<PKey, PVal>>(), (items as &dyn Any).downcast_ref::<Vec<(PKey, PVal)>>()) else {
+        return false;
+    };
+    if variant == 2 {
+        m.extend(it.iter().map(|e| (&e.0, &e.1)));
+    } else {
+        m.extend(it.iter());
+    }
+    true
+}
+
 struct FeedIter<T> {
     items: std::vec::IntoIter<T>,
     /// claimed lower bound of size_hint (exact by default)
@@ -358,7 +377,10 @@ where
                     expect.push((k, g, a[2] + i as u64));
                 }
                 let s = &mut self.slots[self.cur];
-                s.map.extend(FeedIter { items: items.into_iter(), claim: None });
+                // plain (Copy) elements: half of the extends go through `Extend<(&K, &V)>` / `Extend<&(K, V)>`
+                if !extend_by_ref(&mut s.map, &items, a[2] % 4) {
+                    s.map.extend(FeedIter { items: items.into_iter(), claim: None });
+                }
                 for (k, g, v) in expect {
                     Self::model_insert(&mut s.model, k, g, v);
                 }
@@ -371,6 +393,8 @@ where
                     Map::with_hasher_in(PlanBuildHasher::new(s.plan), CheckAlloc),
                 );
                 s.map = old.into_iter().collect();
+                let sample: Vec<(u32, u64)> = s.model.iter().take(3).map(|e| (e.id, e.val)).collect();
+                Self::from_array_check(&sample)?;
             }
             ops::CLEAR => {
                 let s = &mut self.slots[self.cur];
@@ -1557,6 +1581,33 @@ where
             ops::MIRROR_TO_OTHER => self.pristine[other] = false,
             _ => self.pristine[cur] = false,
         }
+    }
+
+    /// `From<[(K, V); N]>` (N = 0, 1, 3 with the last pair repeating the first key): same contents as
+    /// inserting the pairs in order (value of the last, key of the first occurrence).
+    fn from_array_check(sample: &[(u32, u64)]) -> Result<(), Bad> {
+        type DMap = hb::HashMap<ArrKey, u64, hb::DefaultHashBuilder, CheckAlloc>;
+        let e: DMap = DMap::from([]);
+        if e.len() != 0 || e.iter().next().is_some() {
+            bad!("C01", "from-array", "HashMap::from([]) is not empty");
+        }
+        if e.allocation_size() != 0 {
+            bad!("C03", "unallocated-collection-owns-block", "HashMap::from([]) owns a block");
+        }
+        if let Some(&(id, val)) = sample.first() {
+            let one: DMap = DMap::from([(ArrKey { id, tag: 1 }, val)]);
+            if one.len() != 1 || one.get(&ArrKey { id, tag: 0 }) != Some(&val) {
+                bad!("C01", "from-array", "HashMap::from([(k, v)]) does not hold exactly that pair");
+            }
+            let (id2, val2) = sample.get(1).copied().unwrap_or((id.wrapping_add(1_000_000), val ^ 1));
+            let three: DMap = DMap::from([(ArrKey { id, tag: 1 }, val), (ArrKey { id: id2, tag: 2 }, val2), (ArrKey { id, tag: 3 }, val.wrapping_add(9))]);
+            let got0 = three.get_key_value(&ArrKey { id, tag: 0 }).map(|(k, v)| (k.tag, *v));
+            let got1 = three.get(&ArrKey { id: id2, tag: 0 }).copied();
+            if three.len() != 2 || got0 != Some((1, val.wrapping_add(9))) || got1 != Some(val2) {
+                bad!("C01", "from-array", "HashMap::from of three pairs with a repeated key: len {} first {:?} second {:?}", three.len(), got0, got1);
+            }
+        }
+        Ok(())
     }
 
     fn c13_track(&mut self) {
